@@ -1,9 +1,11 @@
 (** Proofs about the text level of tools.Dot / tools.Mermaid
     (Model/ToolsText.v): the identifier written for a node name can be read
     back (so distinct names give distinct identifiers) and a name never ends
-    the quoted string it is written in.  One statement about the text is
-    false and is refuted here: the HTML-like [label=<...>] of a Graphviz node
-    statement holds the raw name ([dot_label_breaks_out]). *)
+    the quoted string it is written in; the HTML-like [label=<...>] of a
+    Graphviz node statement holds the name escaped by dotHTML, which stays
+    inside the brackets and reads back ([dot_label_stays_inside_holds]).
+    Before the repair D55 the label held the raw name, which could break out
+    ([dot_label_raw_breaks_out]). *)
 From Coq Require Import String Ascii List Bool Arith Lia DecimalString DecimalNat.
 From Sheens Require Import Model.ToolsText.
 Import ListNotations.
@@ -595,7 +597,7 @@ Proof.
   rewrite !mermaid_scan_label in E. now injection E.
 Qed.
 
-(** * the Graphviz label: the raw name inside label=<...>
+(** * the Graphviz label: the name inside label=<...>
 
     lib/cgraph/scan.l, state hstring: the text between angle brackets is read
     counting nesting: an opening bracket adds one level, a closing bracket
@@ -615,43 +617,170 @@ Fixpoint html_scan (depth : nat) (s : string) : option string :=
       else html_scan depth r
   end.
 
+Lemma dot_html_nil : dot_html "" = "".
+Proof. reflexivity. Qed.
+
+Lemma dot_html_cons : forall c r,
+  dot_html (String c r) =
+  if Ascii.eqb c amp then "&amp;" ++ dot_html r
+  else if Ascii.eqb c langle then "&lt;" ++ dot_html r
+  else if Ascii.eqb c rangle then "&gt;" ++ dot_html r
+  else String c (dot_html r).
+Proof.
+  intros. unfold dot_html. cbn [byte_replace html_pairs lookup_byte].
+  destruct (Ascii.eqb c amp); [reflexivity|].
+  destruct (Ascii.eqb c langle); [reflexivity|].
+  destruct (Ascii.eqb c rangle); reflexivity.
+Qed.
+
+(** the escaped text holds no angle bracket at all *)
+Theorem dot_html_no_angle : forall s,
+  has_char langle (dot_html s) = false /\ has_char rangle (dot_html s) = false.
+Proof.
+  induction s as [|c s [IHl IHr]]; [split; reflexivity|].
+  rewrite dot_html_cons.
+  destruct (Ascii.eqb c amp) eqn:Ha; [rewrite !has_char_app, IHl, IHr; split; reflexivity|].
+  destruct (Ascii.eqb c langle) eqn:Hl; [rewrite !has_char_app, IHl, IHr; split; reflexivity|].
+  destruct (Ascii.eqb c rangle) eqn:Hr; [rewrite !has_char_app, IHl, IHr; split; reflexivity|].
+  cbn [has_char]. now rewrite Hl, Hr, IHl, IHr.
+Qed.
+
+(** a text without angle brackets is passed over at any depth *)
+Lemma html_scan_plain_app : forall t u d,
+  has_char langle t = false -> has_char rangle t = false ->
+  html_scan d (t ++ u) = html_scan d u.
+Proof.
+  induction t as [|c t IH]; intros u d Hl Hr; [reflexivity|].
+  cbn [has_char] in Hl, Hr.
+  apply orb_false_iff in Hl as [Hl1 Hl2]. apply orb_false_iff in Hr as [Hr1 Hr2].
+  cbn [append html_scan]. rewrite Hl1, Hr1. now apply IH.
+Qed.
+
+Theorem html_plain_stays_inside : forall t rest d,
+  has_char langle t = false -> has_char rangle t = false ->
+  html_scan (S d) (t ++ String rangle rest) =
+  match d with O => Some rest | S d' => html_scan (S d') rest end.
+Proof.
+  intros t rest d Hl Hr. rewrite html_scan_plain_app by assumption.
+  cbn [html_scan].
+  replace (Ascii.eqb rangle langle) with false by reflexivity.
+  replace (Ascii.eqb rangle rangle) with true by reflexivity.
+  destruct d; reflexivity.
+Qed.
+
 (** "the name stays inside its label": after [label=<] the reader, going over
-    the name and the closing bracket that Dot writes, stops exactly there *)
+    the escaped name and the closing bracket that Dot writes, stops exactly
+    there - for every name and whatever follows *)
 Definition dot_label_stays_inside : Prop :=
   forall name rest, html_scan 1 (dot_label_name name ++ String rangle rest) = Some rest.
+
+Theorem dot_label_stays_inside_holds : dot_label_stays_inside.
+Proof.
+  intros name rest. unfold dot_label_name.
+  destruct (dot_html_no_angle name) as [Hl Hr].
+  now rewrite html_plain_stays_inside.
+Qed.
+
+(** the whole label of a node with a doc string: the fixed markup is
+    balanced and the two escaped texts hold no bracket *)
+Theorem dot_node_label_stays_inside : forall name doc rest,
+  html_scan 1 (dot_node_label name doc ++ String rangle rest) = Some rest.
+Proof.
+  intros name doc rest. unfold dot_node_label, dot_label_name.
+  destruct (dot_html_no_angle name) as [Hl Hr].
+  rewrite app_assoc_s, html_scan_plain_app by assumption.
+  destruct doc as [|c doc'].
+  - cbn [append html_scan].
+    replace (Ascii.eqb rangle langle) with false by reflexivity.
+    replace (Ascii.eqb rangle rangle) with true by reflexivity. reflexivity.
+  - destruct (dot_html_no_angle (String c doc')) as [Dl Dr].
+    set (D := dot_html (String c doc')) in *.
+    rewrite !app_assoc_s.
+    change (html_scan 1 ("<BR/><FONT POINT-SIZE='8'>" ++ D ++ "</FONT>" ++ String rangle rest))
+      with (html_scan 1 (D ++ "</FONT>" ++ String rangle rest)).
+    rewrite html_scan_plain_app by assumption.
+    reflexivity.
+Qed.
+
+(** reading the escaped text back: no bracket can occur, an ampersand must
+    begin one of the three entities that are written *)
+Fixpoint html_unescape_aux (skip : nat) (s : string) : option string :=
+  match s with
+  | EmptyString => match skip with O => Some EmptyString | S _ => None end
+  | String c r =>
+      match skip with
+      | S k => html_unescape_aux k r
+      | O =>
+          if Ascii.eqb c langle || Ascii.eqb c rangle then None
+          else if Ascii.eqb c amp then
+            if starts_with "amp;" r then option_map (String amp) (html_unescape_aux 4 r)
+            else if starts_with "lt;" r then option_map (String langle) (html_unescape_aux 3 r)
+            else if starts_with "gt;" r then option_map (String rangle) (html_unescape_aux 3 r)
+            else None
+          else option_map (String c) (html_unescape_aux 0 r)
+      end
+  end.
+
+Definition html_unescape (s : string) : option string := html_unescape_aux 0 s.
+
+Theorem html_unescape_html : forall s, html_unescape (dot_html s) = Some s.
+Proof.
+  unfold html_unescape.
+  induction s as [|c s IH]; [reflexivity|].
+  rewrite dot_html_cons.
+  destruct (Ascii.eqb c amp) eqn:Ha.
+  - apply Ascii.eqb_eq in Ha. subst c.
+    change ("&amp;" ++ dot_html s)
+      with (String amp (String "a"%char (String "m"%char (String "p"%char (String ";"%char (dot_html s)))))).
+    cbn. now rewrite IH.
+  - destruct (Ascii.eqb c langle) eqn:Hl.
+    + apply Ascii.eqb_eq in Hl. subst c.
+      change ("&lt;" ++ dot_html s)
+        with (String amp (String "l"%char (String "t"%char (String ";"%char (dot_html s))))).
+      cbn. now rewrite IH.
+    + destruct (Ascii.eqb c rangle) eqn:Hr.
+      * apply Ascii.eqb_eq in Hr. subst c.
+        change ("&gt;" ++ dot_html s)
+          with (String amp (String "g"%char (String "t"%char (String ";"%char (dot_html s))))).
+        cbn. now rewrite IH.
+      * cbn [html_unescape_aux]. rewrite Hl, Hr, Ha. cbn [orb]. now rewrite IH.
+Qed.
+
+Theorem dot_label_readable_back : forall name, html_unescape (dot_label_name name) = Some name.
+Proof. exact html_unescape_html. Qed.
+
+Theorem dot_label_name_injective : forall a b, dot_label_name a = dot_label_name b -> a = b.
+Proof.
+  intros a b H. pose proof (dot_label_readable_back a) as Ha. rewrite H, dot_label_readable_back in Ha.
+  now injection Ha.
+Qed.
+
+(** ** D55, the code before the repair: the raw name inside label=<...> *)
+Definition dot_raw_label_stays_inside : Prop :=
+  forall name rest, html_scan 1 (dot_label_raw name ++ String rangle rest) = Some rest.
 
 Definition label_witness_close : string := String rangle EmptyString.    (* the name > *)
 Definition label_witness_open : string := String langle EmptyString.     (* the name < *)
 
-(** refuted: the name > ends the label early (the rest of the statement then
-    begins with a stray bracket); the name < leaves it open for ever *)
-Theorem dot_label_breaks_out :
-  html_scan 1 (dot_label_name label_witness_close ++ String rangle " ]") = Some (String rangle " ]") /\
-  html_scan 1 (dot_label_name label_witness_open ++ String rangle " ]") = None.
+(** the name > ended the label early (the rest of the statement then began
+    with a stray bracket); the name < left it open for ever *)
+Theorem dot_label_raw_breaks_out :
+  html_scan 1 (dot_label_raw label_witness_close ++ String rangle " ]") = Some (String rangle " ]") /\
+  html_scan 1 (dot_label_raw label_witness_open ++ String rangle " ]") = None.
 Proof. split; reflexivity. Qed.
 
-Theorem dot_label_stays_inside_refuted : ~ dot_label_stays_inside.
+Theorem dot_raw_label_stays_inside_refuted : ~ dot_raw_label_stays_inside.
 Proof.
   intros H. specialize (H label_witness_close " ]").
-  destruct dot_label_breaks_out as [E _]. rewrite E in H. discriminate H.
+  destruct dot_label_raw_breaks_out as [E _]. rewrite E in H. discriminate H.
 Qed.
 
-(** the strongest statement that is true: a name without angle brackets
-    stays inside, at any depth *)
-Theorem dot_label_stays_inside_plain : forall name rest d,
-  has_char langle name = false -> has_char rangle name = false ->
-  html_scan (S d) (dot_label_name name ++ String rangle rest) =
-  match d with O => Some rest | S d' => html_scan (S d') rest end.
-Proof.
-  unfold dot_label_name. induction name as [|c s IH]; intros rest d Hl Hr.
-  - cbn [append html_scan].
-    replace (Ascii.eqb rangle langle) with false by reflexivity.
-    replace (Ascii.eqb rangle rangle) with true by reflexivity.
-    destruct d; reflexivity.
-  - cbn [has_char] in Hl, Hr.
-    apply orb_false_iff in Hl as [Hl1 Hl2]. apply orb_false_iff in Hr as [Hr1 Hr2].
-    cbn [append html_scan]. rewrite Hl1, Hr1. now apply IH.
-Qed.
+(** the same two names after the repair *)
+Example dot_label_witnesses_repaired :
+  dot_label_name label_witness_close = "&gt;" /\ dot_label_name label_witness_open = "&lt;" /\
+  html_scan 1 (dot_label_name label_witness_close ++ String rangle " ]") = Some " ]" /\
+  html_scan 1 (dot_label_name label_witness_open ++ String rangle " ]") = Some " ]".
+Proof. repeat split; reflexivity. Qed.
 
 (** * examples: a nasty name *)
 Definition nasty_name : string :=
